@@ -35,6 +35,7 @@ def run(chk):
     rule_trampoline_when(chk)
     rule_operand_repeated(chk)
     rule_global_threading(chk)
+    rule_simplify_cbuffers_eval(chk)
 
 
 def rule_sibling_ops(chk):
@@ -185,28 +186,11 @@ def rule_thread(chk):
                "%s builds a user call whose arguments were not extended by append_arguments_for_globals" % fn["name"], where(fn))
 
 
-def rule_usage_eval(chk, prefix="C02.usage"):
-    """GlobalUsageAnalysis::calculate read as a function of the module: one function whose body has a distinct global
-    planted in every expression position of every statement and expression kind (conditions, branches, loop parts,
-    initialisers, call arguments, constructor slots, subscripts, members, casts, operators), calling a chain of two more
-    functions that reach another global and a constant buffer; a fourth function that nobody calls. What a function
-    requires must be exactly what it mentions plus what its callees require - in both hash orders."""
+def position_body(G):
+    """An ir::ScopeBlock with G(<description>) planted in every expression position of every statement and expression kind."""
     import interp as I
-    f = chk.facts
-    calc = f.fn("calculate", "rssl_ir", self_ty="GlobalUsageAnalysis")
-    get = f.fn("get_usage_for_function", "rssl_ir")
-    if not calc or not get:
-        return False
     opt = lambda v: I.Enum("Option", "None") if v is None else I.Enum("Option", "Some", {"0": v})
     fid = lambda i: I.Enum("FunctionId", None, {"0": i})
-    gid = lambda i: I.Enum("GlobalId", None, {"0": i})
-    counter = [0]
-    planted = {}
-
-    def G(where_):
-        counter[0] += 1
-        planted[counter[0]] = where_
-        return I.Enum("Expression", "Global", {"0": gid(counter[0])})
     X = lambda v, **fl: I.Enum("Expression", v, {str(k)[1:]: x for k, x in fl.items()})
     lit = I.Enum("Expression", "Literal", {"0": I.Enum("Constant", "Int32", {"0": 1})})
     var = I.Enum("Expression", "Variable", {"0": I.Enum("VariableId", None, {"0": 0})})
@@ -214,7 +198,7 @@ def rule_usage_eval(chk, prefix="C02.usage"):
     block = lambda *ss: I.Enum("ScopeBlock", None, {"0": list(ss), "1": I.Opaque("declarations")})
     es = lambda w: stmt("Expression", G(w))
     iexpr = lambda w: I.Enum("Initializer", "Expression", {"0": G(w)})
-    body0 = block(
+    return block(
         stmt("Expression", G("expression statement")),
         stmt("Var", I.Enum("VarDef", None, {"id": 0, "init": opt(iexpr("variable initialiser"))})),
         stmt("Var", I.Enum("VarDef", None, {"id": 1, "init": opt(I.Enum("Initializer", "Aggregate", {"0": [iexpr("aggregate initialiser element"), I.Enum("Initializer", "Aggregate", {"0": [iexpr("nested aggregate element")]})]}))})),
@@ -243,6 +227,33 @@ def rule_usage_eval(chk, prefix="C02.usage"):
         stmt("Expression", I.Enum("Expression", "SizeOf", {"0": I.Opaque("type")})), stmt("Expression", I.Enum("Expression", "EnumValue", {"0": I.Opaque("enum value")})),
         stmt("Return", opt(None)),
     )
+
+
+def rule_usage_eval(chk, prefix="C02.usage"):
+    """GlobalUsageAnalysis::calculate read as a function of the module: one function whose body has a distinct global
+    planted in every expression position of every statement and expression kind (conditions, branches, loop parts,
+    initialisers, call arguments, constructor slots, subscripts, members, casts, operators), calling a chain of two more
+    functions that reach another global and a constant buffer; a fourth function that nobody calls. What a function
+    requires must be exactly what it mentions plus what its callees require - in both hash orders."""
+    import interp as I
+    f = chk.facts
+    calc = f.fn("calculate", "rssl_ir", self_ty="GlobalUsageAnalysis")
+    get = f.fn("get_usage_for_function", "rssl_ir")
+    if not calc or not get:
+        return False
+    opt = lambda v: I.Enum("Option", "None") if v is None else I.Enum("Option", "Some", {"0": v})
+    fid = lambda i: I.Enum("FunctionId", None, {"0": i})
+    gid = lambda i: I.Enum("GlobalId", None, {"0": i})
+    counter = [0]
+    planted = {}
+
+    def G(where_):
+        counter[0] += 1
+        planted[counter[0]] = where_
+        return I.Enum("Expression", "Global", {"0": gid(counter[0])})
+    stmt = lambda kind, *a: I.Enum("Statement", None, {"kind": I.Enum("StatementKind", kind, {str(i): v for i, v in enumerate(a)}), "location": I.Opaque("location"), "attributes": []})
+    block = lambda *ss: I.Enum("ScopeBlock", None, {"0": list(ss), "1": I.Opaque("declarations")})
+    body0 = position_body(G)
     n_planted = counter[0]
     g_far, g_unused, g_mid = n_planted + 1, n_planted + 2, n_planted + 3
     cbm = I.Enum("Expression", "ConstantVariable", {"0": I.Enum("ConstantBufferMemberId", None, {"0": I.Enum("ConstantBufferId", None, {"0": 0}), "1": 2})})
@@ -291,6 +302,121 @@ def rule_usage_eval(chk, prefix="C02.usage"):
                         i, sorted(got[i][0])[-4:], sorted(got[i][1]), sorted(got[i][2]), sorted(want[i][0])[-4:], sorted(want[i][1]), sorted(want[i][2]), " [hash order reversed]" if reverse else "")
     chk.ob(prefix + "/model", bad is None, bad or "%d planted positions, a call chain of three and an uncalled function: usage is exact in both hash orders" % n_planted, where(calc), sample={"positions": n_planted})
     chk.floor(prefix.split(".")[0] + ".floor/usage-positions", n_planted, 40, "expression positions planted", where(calc))
+    return True
+
+
+def rule_simplify_cbuffers_eval(chk, prefix="C02.cbuffers"):
+    """simplify_cbuffers (the Metal exporter's first pass) read as a function of the module: three constant buffers - one
+    of them without members - a function whose body reads a cbuffer member in every expression position of every
+    statement and expression kind, a parameter default and a global initialiser that read one. Afterwards no cbuffer and
+    no cbuffer-member expression is left; every cbuffer, the empty one included, has become exactly one global that keeps
+    its name, explicit binding and assigned slot (that is what the reflection data is built from), with one struct whose
+    members are the cbuffer's in order; every read became member j of the right global; the root definitions keep their
+    order."""
+    import interp as I
+    f = chk.facts
+    fn = f.fn("simplify_cbuffers", "rssl_ir")
+    if not fn:
+        return False
+    opt = lambda v: I.Enum("Option", "None") if v is None else I.Enum("Option", "Some", {"0": v})
+    loc = lambda v: I.Enum("Located", None, {"node": v, "location": I.Opaque("location")})
+    tid = lambda n: I.Enum("TypeId", None, {"0": n})
+    cbid = lambda i: I.Enum("ConstantBufferId", None, {"0": i})
+    planted = []
+
+    def G(where_):
+        k = len(planted)
+        cb, mem = (0, k % 2) if k % 3 else (2, k % 3)
+        planted.append((where_, cb, mem))
+        return I.Enum("Expression", "ConstantVariable", {"0": I.Enum("ConstantBufferMemberId", None, {"0": cbid(cb), "1": mem})})
+    body = position_body(G)
+    n_body = len(planted)
+    default_expr = G("default value of a parameter")
+    global_init = I.Enum("Initializer", "Expression", {"0": G("initialiser of a global")})
+    cbs = []
+    for i, (name, nmem) in enumerate((("Frame", 2), ("Empty", 0), ("Material", 3))):
+        cbs.append(I.Enum("ConstantBuffer", None, {"name": loc(name), "namespace": opt(None), "lang_binding": I.Enum("LanguageBinding", None, {"set": opt(i), "index": opt(10 + i)}),
+                                                   "api_binding": opt(I.Enum("ApiBinding", None, {"tag": "slot of " + name})),
+                                                   "members": [I.Enum("ConstantVariable", None, {"name": loc("%s_m%d" % (name, j)), "type_id": tid(30 + j), "offset": opt(None)}) for j in range(nmem)]}))
+    impl = I.Enum("FunctionImplementation", None, {"params": [I.Enum("FunctionParam", None, {"default_expr": opt(default_expr)}), I.Enum("FunctionParam", None, {"default_expr": opt(None)})],
+                                                   "scope_block": body, "attributes": []})
+    g0 = I.Enum("GlobalVariable", None, {"name": loc("g0"), "init": opt(global_init), "type_id": tid(3)})
+    made_types = []
+
+    def deref(v):
+        return v.get() if isinstance(v, I.Ref) else v
+    ext = {"TypeRegistry::register_type": lambda a: (made_types.append(deref(a[1])) or tid(500 + len(made_types))), "FunctionRegistry::iter": lambda a: [I.Enum("FunctionId", None, {"0": 0})],
+           "FunctionRegistry::get_function_implementation_mut": lambda a: opt(impl)}
+    roots = [I.Enum("RootDefinition", "GlobalVariable", {"0": I.Enum("GlobalId", None, {"0": 0})}), I.Enum("RootDefinition", "ConstantBuffer", {"0": cbid(0)}),
+             I.Enum("RootDefinition", "Function", {"0": I.Enum("FunctionId", None, {"0": 0})}), I.Enum("RootDefinition", "ConstantBuffer", {"0": cbid(1)}), I.Enum("RootDefinition", "ConstantBuffer", {"0": cbid(2)})]
+    module = I.Enum("Module", None, {"cbuffer_registry": list(cbs), "struct_registry": [], "global_registry": [g0], "root_definitions": list(roots), "type_registry": I.Opaque("type registry"),
+                                     "function_registry": I.Opaque("function registry")})
+    ip = I.Interp(f, max_depth=40, extern=ext)
+    ip.max_loop = 4096
+    try:
+        ip.apply(fn, [module])
+    except I.Unknown as e:
+        if "panicking" in str(e):
+            chk.ob(prefix + "/model", False, "simplify_cbuffers aborts on the model module (%s)" % str(e)[:80], where(fn))
+            return True
+        chk.note("%s: simplify_cbuffers is not readable (%s)" % (prefix, str(e)[:80]))
+        return False
+    mf = module.fields
+    bad = None
+    globs, structs = mf["global_registry"], mf["struct_registry"]
+    flat = lambda o: o.fields["0"] if isinstance(o, I.Enum) and o.variant == "Some" else None
+    if mf["cbuffer_registry"]:
+        bad = "constant buffers are left in the module"
+    elif len(globs) != 1 + len(cbs) or len(structs) != len(cbs):
+        bad = "%d constant buffers (one of them without members) become %d globals and %d structs: a cbuffer without a global is missing from the Metal reflection data, so the targets report different binding names" % (
+            len(cbs), len(globs) - 1, len(structs))
+    else:
+        for i, cb in enumerate(cbs):
+            g = globs[1 + i].fields
+            if g["name"].fields["node"] != cb.fields["name"].fields["node"] or flat(g["lang_slot"].fields["set"]) != i or flat(g["lang_slot"].fields["index"]) != 10 + i or \
+                    flat(g["api_slot"]) is None or flat(g["api_slot"]).fields.get("tag") != "slot of " + cb.fields["name"].fields["node"] or g["storage_class"].variant != "Extern":
+                bad = "cbuffer %s becomes a global named %s with binding (%s, %s) / slot %s: name, explicit binding and assigned slot must carry over" % (
+                    cb.fields["name"].fields["node"], g["name"].fields["node"], flat(g["lang_slot"].fields["set"]), flat(g["lang_slot"].fields["index"]), flat(g["api_slot"]))
+                break
+            want_m = [(m_.fields["name"].fields["node"], m_.fields["type_id"].fields["0"]) for m_ in cb.fields["members"]]
+            got_m = [(m_.fields["name"], m_.fields["type_id"].fields["0"]) for m_ in structs[i].fields["members"]]
+            if got_m != want_m:
+                bad = "the struct made for cbuffer %s has members %s, the cbuffer has %s" % (cb.fields["name"].fields["node"], got_m, want_m)
+                break
+    if not bad:
+        kinds = [(r_.variant, r_.fields["0"].fields["0"]) for r_ in mf["root_definitions"]]
+        want_roots = [("GlobalVariable", 0), ("Struct", 0), ("GlobalVariable", 1), ("Function", 0), ("Struct", 1), ("GlobalVariable", 2), ("Struct", 2), ("GlobalVariable", 3)]
+        if kinds != want_roots:
+            bad = "the root definitions become %s, must be %s (each cbuffer replaced in place by its struct and its global)" % (kinds, want_roots)
+    if not bad:
+        def walk(v, path, out):
+            if isinstance(v, I.Enum):
+                if v.adt == "Expression" and v.variant == "ConstantVariable":
+                    out.append(("left", path))
+                    return
+                if v.adt == "Expression" and v.variant == "StructMember" and isinstance(v.fields.get("0"), I.Enum) and v.fields["0"].variant == "Global":
+                    out.append(("member", v.fields["0"].fields["0"].fields["0"], v.fields["1"].fields["0"], v.fields["2"]))
+                    return
+                for x in v.fields.values():
+                    walk(x, path, out)
+            elif isinstance(v, (list, tuple)):
+                for x in v:
+                    walk(x, path, out)
+        found = []
+        walk(impl.fields["scope_block"], "body", found)
+        walk(impl.fields["params"], "parameter default", found)
+        walk(globs[0], "global initialiser", found)
+        left = [x for x in found if x[0] == "left"]
+        want = [("member", 1 + cb, cb, mem) for _w, cb, mem in planted]
+        if left:
+            k = len([x for x in found[:found.index(left[0])]])
+            bad = "a cbuffer member read in the %s is not rewritten: the Metal exporter meets a constant-buffer expression it no longer has a cbuffer for" % planted[k][0]
+        elif [x for x in found if x[0] == "member"] != want:
+            got = [x for x in found if x[0] == "member"]
+            k = [i for i in range(min(len(got), len(want))) if got[i] != want[i]]
+            bad = ("the cbuffer member read in the %s becomes member %s of global %s, must be member %s of global %s" % (planted[k[0]][0], got[k[0]][3], got[k[0]][1], want[k[0]][3], want[k[0]][1])) if k else \
+                "%d cbuffer member reads were planted, %d member expressions come back" % (len(want), len(got))
+    chk.ob(prefix + "/model", bad is None, bad or "%d planted reads rewritten; 3 cbuffers (one empty) become 3 globals with their names and bindings" % len(planted), where(fn), sample={"positions": len(planted)})
     return True
 
 
